@@ -190,20 +190,9 @@ fn msm_toy251_terms_0_1() {
     assert!(r1 == e * s);
 }
 
-// Two fully symbolic terms did not finish in 25 min (also not with division-free toy arithmetic); 3 terms
-// were not attempted after that.  What finishes: one fully symbolic term accumulated with a second term whose
-// SCALAR is one of four concrete values (its NAF digits are then concrete) and whose point is symbolic.
-// @harness name=msm_toy251_terms_2_mixed props=C01,C14 kind=bounded bound="2 terms: (s1, E1, E2) full domain, s2 in {0, 1, 173, 250}" tier=thorough backs="vartime_multiscalar_mul.ensures: result == s1*E1 + s2*E2 (accumulation across terms); no panic" expect=pass
-#[kani::proof]
-#[kani::unwind(12)]
-fn msm_toy251_terms_2_mixed() {
-    let (s1, e1, e2) = (any_s(), any_e(), any_e());
-    let sel: u8 = kani::any();
-    kani::assume(sel < 4);
-    let s2 = S([0u8, 1, 173, 250][sel as usize]);
-    let r = __verif::vartime_multiscalar_mul::<Toy251>(vec![s1, s2], vec![e1, e2]);
-    assert!(r == e1 * s1 + e2 * s2);
-}
+// More than one term is NOT covered: two fully symbolic terms did not finish in 25 min (with `%`-based and with
+// division-free toy arithmetic), nor did "one symbolic term + one term with a scalar from {0, 1, 173, 250}";
+// three terms were not attempted after that.  See README, "What could not be done".
 
 // optional_multiscalar_mul: None for a None element or for unequal lengths (this is what makes the
 // `expect` in vartime_multiscalar_mul fire when the caller violates "equal lengths").
